@@ -139,6 +139,9 @@ func runC18(c *core.Ctx) {
 		"{% for x in arr limit: d offset: 1 %}{{ x }}{% endfor %}", "{{ d | divided_by: 2 }}{{ 7 | divided_by: d }}{{ 7 | modulo: d }}", "{{ s | size }}{{ arr | size }}", "{{ s | slice: 0, d }}{{ s | truncate: 5 }}",
 		"{{ d | default: 'x' }}{{ nd | default: 'dflt' }}", "{% if d < 3 and d > 1 %}T{% endif %}{% if d <= 2 or nd %}U{% endif %}",
 		"{{ m }}", "{{ objs[0] }}|{{ objs | last }}", "{{ mm }}", "{% for kv in mm %}{{ kv[1] }}{% endfor %}",
+		// nil inside containers, also as a Drop whose value is nil
+		"{% if holes contains nil %}T{% else %}F{% endif %}|{% if holes contains nd %}T{% else %}F{% endif %}|{{ holes | compact | size }}|{{ holes | size }}", "{% if holes == holes2 %}T{% else %}F{% endif %}{% if holes != holes2 %}N{% endif %}{% if holes[1] == nil %}n{% endif %}{% if holes[1] %}t{% else %}f{% endif %}",
+		"{% if mm.n == nil %}T{% else %}F{% endif %}{% if mm.n %}t{% else %}f{% endif %}{% if mm == mm %}R{% endif %}{% for x in holes %}{% if x == nil %}~{% else %}{{ x }}{% endif %}{% endfor %}", "{% case nd %}{% when nil %}N{% else %}E{% endcase %}{% case holes[1] %}{% when nil %}N{% else %}E{% endcase %}{{ holes | join: '-' }}{{ holes | first }}{{ holes | last }}",
 	}
 	for i := 0; i < len(dropT)*c.Pick(20, 200); i++ {
 		if !c.Mine(i) {
@@ -149,6 +152,7 @@ func runC18(c *core.Ctx) {
 		names := []string{"x", "b", "a", "c", "Bc"}
 		env := gen.Env{{K: "d", V: gen.Int(2)}, {K: "nd", V: gen.Nil}, {K: "s", V: gen.Str(names[r.Intn(5)])},
 			{K: "arr", V: gen.Ints(int64(r.Range(1, 3)), 2, int64(r.Range(0, 3)), 1)}, {K: "sarr", V: gen.Strs(names[r.Intn(5)], names[r.Intn(5)], "a")},
+			{K: "holes", V: gen.Arr(gen.Int(1), gen.Nil, gen.Str("x"), gen.Nil)}, {K: "holes2", V: gen.Arr(gen.Int(1), gen.Nil, gen.Str("x"), gen.Nil)},
 			{K: "nested", V: gen.Arr(gen.Ints(1), gen.Ints(int64(r.Range(2, 5)), 3))}, {K: "m", V: gen.Map(gen.KV{K: "a", V: gen.Int(1)}, gen.KV{K: "b", V: gen.Str("bee")})},
 			{K: "mm", V: gen.Map(gen.KV{K: "in", V: gen.Map(gen.KV{K: "x", V: gen.Int(int64(r.Range(0, 9)))}, gen.KV{K: "l", V: gen.Strs("p", "q")})}, gen.KV{K: "n", V: gen.Nil}, gen.KV{K: "s", V: gen.Str("str")})},
 			{K: "objs", V: gen.Arr(gen.Map(gen.KV{K: "id", V: gen.Int(1)}, gen.KV{K: "name", V: gen.Str(names[r.Intn(5)])}), gen.Map(gen.KV{K: "id", V: gen.Int(2)}, gen.KV{K: "name", V: gen.Str(names[r.Intn(5)])}))}}
